@@ -644,3 +644,91 @@ func ruleCallbackLocks(c *Checker, rule string) {
 			"the send and the receive callback of "+a.typ+" both hold "+shared+" across their relay operation: while one waits for the peer the other direction is blocked (the connection is half duplex and can stall)")
 	}
 }
+
+// ruleHandshakeDeadline: a read deadline that a function puts on the transport for the
+// handshake is taken off again on every path on which it hands the connection out: the four
+// handshake drivers (gRPC client/server, TCP dial/listen) set `now + handshakeReadTimeout`; a
+// success return that has not passed SetReadDeadline(time.Time{}) leaves every later Read of the
+// established connection failing with a timeout a few seconds in.
+func ruleHandshakeDeadline(c *Checker, rule string) {
+	w := c.w
+	n := 0
+	for _, fn := range w.Funcs {
+		if w.pkgShort(fn) != targetMbox || strings.HasSuffix(w.Fset.Position(fn.Pos()).Filename, "_test.go") {
+			continue
+		}
+		var arms, clears []ssa.Instruction
+		allInstrs(fn, func(in ssa.Instruction) {
+			ci, ok := in.(ssa.CallInstruction)
+			if !ok {
+				return
+			}
+			name := ""
+			if ci.Common().IsInvoke() {
+				name = ci.Common().Method.Name()
+			} else if sc := ci.Common().StaticCallee(); sc != nil {
+				name = sc.Name()
+			}
+			if name != "SetReadDeadline" && name != "SetDeadline" {
+				return
+			}
+			args := ci.Common().Args
+			if len(args) == 0 {
+				return
+			}
+			t := unwrapLoadAlloc(args[len(args)-1])
+			zero := false
+			if k, ok := t.(*ssa.Const); ok && k.Value == nil {
+				zero = true
+			}
+			if al, ok := args[len(args)-1].(*ssa.UnOp); ok {
+				if a, ok := al.X.(*ssa.Alloc); ok && len(localStores(a)) == 0 {
+					zero = true // zero-valued local time.Time{}
+				}
+			}
+			if _, isParam := t.(*ssa.Parameter); isParam {
+				return // a forwarding SetReadDeadline method
+			}
+			if zero {
+				clears = append(clears, in)
+			} else {
+				arms = append(arms, in)
+			}
+		})
+		if len(arms) == 0 {
+			continue
+		}
+		n++
+		bad := ""
+		allInstrs(fn, func(in ssa.Instruction) {
+			ret, ok := in.(*ssa.Return)
+			if !ok || bad != "" || ret.Block().Comment == "recover" || len(ret.Results) == 0 {
+				return
+			}
+			succ := false
+			for _, v := range expandValues(ret.Results[len(ret.Results)-1]) {
+				if isNilConst(v) {
+					succ = true
+				}
+			}
+			if !succ {
+				return
+			}
+			for _, a := range arms {
+				if pathExists(a, ret, func(x ssa.Instruction) bool {
+					for _, cl := range clears {
+						if x == cl {
+							return true
+						}
+					}
+					return false
+				}) {
+					bad = w.pos(instrPos(ret))
+				}
+			}
+		})
+		c.decide(bad == "", rule, fnName(fn)+"|the handshake read deadline is cleared before the connection is handed out", fn.Pos(), "every success return after SetReadDeadline(now+timeout) passes SetReadDeadline(time.Time{})",
+			fnName(fn)+" can return successfully at "+bad+" with the handshake's read deadline still armed: every Read on the established connection fails with a timeout once it expires")
+	}
+	c.decide(n >= 4, rule, "handshake deadline sites", token.NoPos, fmt.Sprintf("%d functions arm a read deadline", n), fmt.Sprintf("only %d functions arm a handshake read deadline (4 expected)", n))
+}
